@@ -9,6 +9,17 @@ string S(string hex) {            // string from hex bytes
   return r;
 }
 float F(string s) { return to_float(s); }
+// a value with n nested containers of one kind (the restore pre-scan counts containers in growing tables)
+mixed wide(int n, int kind) {
+  mixed *a; int i; class K c;
+  a = allocate(n);
+  for (i = 0; i < n; i++) {
+    if (kind == 0) a[i] = ({ i });
+    else if (kind == 1) a[i] = ([ i : "v" + i ]);
+    else { c = new(class K); c->a = i; c->b = "b" + i; a[i] = c; }
+  }
+  return a;
+}
 string hexs(string s) { string r; int i; r = ""; for (i = 0; i < strlen(s); i++) r += sprintf("%02x", s[i] & 255); return r; }
 
 // deep comparison; returns 0 when equal, else a short description of the first difference
@@ -16,7 +27,8 @@ string eqv(mixed a, mixed b, string path) {
   int i; mixed k; string d;
   if (typeof(a) != typeof(b)) return path + ":type " + typeof(a) + "/" + typeof(b);
   if (intp(a)) return a == b ? 0 : path + ":int " + a + "/" + b;
-  if (floatp(a)) return (a == b || sprintf("%g", a) == sprintf("%g", b)) ? 0 : path + ":float " + sprintf("%g/%g", a, b);
+  // floats are equal "to the printed precision": the text the driver itself writes for them
+  if (floatp(a)) return (a == b || save_variable(a) == save_variable(b)) ? 0 : path + ":float " + save_variable(a) + "/" + save_variable(b);
   if (stringp(a)) return a == b ? 0 : path + ":string " + hexs(a) + "/" + hexs(b);
   if (classp(a)) {
     d = eqv(((class K)a)->a, ((class K)b)->a, path + "->a"); if (d) return d;
